@@ -12,6 +12,8 @@ import itertools
 
 import numpy as np
 
+from .. import harness as H
+
 PID = "C17"
 RULE = (
     "case = (series, window) for rolling_sum, (series, labelling) for mean_grp. Exhaustive: all 87380 series over a 4-symbol "
@@ -178,7 +180,7 @@ def shard_random(spec, R):
         # grouped mean, all four signature dtypes
         k = int(rng.integers(1, min(n, 12) + 1))
         lab = rng.integers(0, k, n).astype(np.int16)
-        gdt = ["float32", "int16", "int32", "int64"][it % 4]
+        gdt = ["float32", "int16", "int32", "int64"][H.pick(it, 1, 4)]
         got = np.asarray(s.mean_grp(x.astype(gdt), lab, k, nodata)).astype(np.float64)
         exp = o_mean_grp(x.tolist(), lab.tolist(), k, nodata)
         exp32 = exp.astype(np.float32).astype(np.float64)
@@ -193,12 +195,12 @@ def shard_random(spec, R):
             cube = np.where(cube == nodata, cube + 1, cube)
             cube[rng.random(cube.shape) < 0.2] = nodata
             cube[0, 0, :] = nodata
-            adt = ["int16", "int64", "float32"][(it // 5) % 3]
+            adt = ["int16", "int64", "float32"][H.pick(it // 5, 2, 3)]
             da = xr.DataArray(cube.astype(adt), dims=["y", "x", "time"], coords={"time": pd.date_range("2000-01-01", periods=n, freq="D")}, attrs={"nodata": nodata})
-            order = [("y", "x", "time"), ("time", "y", "x")][(it // 5) % 2]
+            order = [("y", "x", "time"), ("time", "y", "x")][H.pick(it // 5, 3, 2)]
             # how the placeholder reaches the accessor: attribute only / explicit argument equal to the attribute /
             # explicit argument overriding a different attribute / explicit argument without any attribute
-            how = (it // 5) % 4
+            how = H.pick(it // 5, 4, 4)
             R.count(f"accessor_nodata_source_{how}")
             if how == 2:
                 da.attrs["nodata"] = -7777.0 if nodata != -7777.0 else -1234.0
